@@ -82,7 +82,7 @@ def canon(exec_lines):
     return '\n'.join(out)
 
 
-def run_net(prop, tier, seed, profiles, rule, assumptions, models=(), level='model_checking', dlimpl=(), satimpl=None, lraimpl=None, cache=None, release_too=False, post=None):
+def run_net(prop, tier, seed, profiles, rule, assumptions, models=(), level='model_checking', dlimpl=(), satimpl=None, lraimpl=None, reifyimpl=None, ovimpl=None, cache=None, release_too=False, post=None):
     """profiles: list of (profile, executions_quick, executions_thorough, max_ops)"""
     ev = Evidence(prop, tier, seed, level)
     ev.cov['rule'] = rule
@@ -170,7 +170,10 @@ def run_net(prop, tier, seed, profiles, rule, assumptions, models=(), level='mod
             if ev.violations:
                 break
             import dlreplay
-            dlreplay.run(ev, prop, tier, real)
+            if isinstance(real, tuple):      # (real?, a further configuration of the generator)
+                dlreplay.run(ev, prop, tier, real[0], extra=real[1])
+            else:
+                dlreplay.run(ev, prop, tier, real)
         # every transition of the implementation-shaped model of the sat core, replayed on the library
         if satimpl and not ev.violations:
             import satreplay
@@ -179,6 +182,14 @@ def run_net(prop, tier, seed, profiles, rule, assumptions, models=(), level='mod
         if lraimpl and not ev.violations:
             import lrareplay
             lrareplay.run(ev, prop, tier, lraimpl[0] if tier == 'quick' else lraimpl[1])
+        # every transition of the implementation-shaped model of the reified constructors, replayed on the library
+        if reifyimpl and not ev.violations:
+            import reifyreplay
+            reifyreplay.run(ev, prop, tier, reifyimpl[0] if tier == 'quick' else reifyimpl[1])
+        # every transition of the implementation-shaped model of the object-variable theory, replayed on the library
+        if ovimpl and not ev.violations:
+            import ovreplay
+            ovreplay.run(ev, prop, tier, ovimpl[0] if tier == 'quick' else ovimpl[1])
         if post and not ev.violations:
             post(ev, rd, tier, seed)
         ev.cov['distinct_nontrivial'] = len(distinct)
